@@ -1060,3 +1060,155 @@ Global Hint Resolve T_select_definition : term.
 Lemma T_document_step n fuel kind : (n <= fuel)%nat -> spec (CM n) (g_document_step fuel kind).
 Proof. intros Hn. unfold g_document_step. tfull. Qed.
 Global Hint Resolve T_document_step : term.
+(* ---- the document loop: every iteration that continues consumes *)
+Ltac mtail := intros ?; let H := fresh "H" in pose proof CMono_ok as H; gfull.
+
+(* definitions entered on a description *)
+Lemma C_desc_first {B} t k (rest : unit -> PM B) :
+  tok_kind t = TkStringValue -> (forall a, spec CMono (rest a)) ->
+  consumes_at t (p_node k (x <- g_if_peek TkStringValue g_description ;; rest x)).
+Proof.
+  intros Hk Hr. apply C_node; [eapply sig_of_kind; eauto|].
+  apply C_if_peek_true; [rewrite Hk; reflexivity|apply C_description; eapply sig_of_kind; eauto|exact Hr].
+Qed.
+
+(* definitions entered on their keyword *)
+Lemma C_kw_first {B} t k kw kk (rest : unit -> PM B) :
+  sigtok t -> tkind_eqb (tok_kind t) TkStringValue = false -> p_str_eqb (tok_data t) kw = true ->
+  (forall a, spec CMono (rest a)) ->
+  consumes_at t (p_node k (g_if_peek TkStringValue g_description ;;
+                           b <- g_peek_data_is kw ;; x <- p_when b (p_bump kk) ;; rest x)).
+Proof.
+  intros Hs Hk Hd Hr. apply C_node; [exact Hs|].
+  apply C_if_peek_false; [exact Hk|].
+  eapply C_keepv; [apply (peek_data_is_some kw)|]. rewrite Hd. cbn [p_when].
+  apply C_bind1; [apply C_bump|exact Hr].
+Qed.
+
+Lemma C_selection_set t fuel : tok_kind t = TkLCurly -> consumes_at t (g_selection_set fuel).
+Proof.
+  intros Hk. destruct fuel as [|f]; cbn [g_selection_set]; [intros s a s' _ E; discriminate|].
+  unfold g_selection_set_body. eapply C_keepv; [apply (peek_is_some TkLCurly)|]. rewrite Hk. cbn [tkind_eqb p_when].
+  apply C_node; [eapply sig_of_kind; eauto|]. apply C_bind1; [apply C_bump|].
+  intros ?. pose proof CMono_ok as H. pose proof (gg_selection_set CMono H f) as Hss.
+  pose proof (gg_selection_ CMono H _ Hss f). gfull.
+Qed.
+
+Lemma C_keep_any {A B} t (m : PM A) (f : A -> PM B) :
+  (forall s a s', m s = POk (a, s') -> s' = s) -> (forall a, consumes_at t (f a)) -> consumes_at t (x <- m ;; f x).
+Proof.
+  intros Hm Hf s b s' Hc E. apply bind_ok in E as (a & s1 & E1 & E). apply Hm in E1. subst s1. eapply Hf; eauto.
+Qed.
+Lemma peek_data_n_pure k s o s' : p_peek_data_n (S k) s = POk (o, s') -> s' = s.
+Proof. unfold p_peek_data_n, p_bind, p_peek_token_n, p_peek_n_inner, p_ret. intros [= _ <-]. reflexivity. Qed.
+
+Lemma C_extensions t fuel : sigtok t -> consumes_at t (g_extensions fuel).
+Proof.
+  intros Hs. unfold g_extensions. apply C_keep_any; [apply peek_data_n_pure|]. intros o.
+  destruct o as [d|]; [|apply C_err_and_pop].
+  repeat (match goal with |- consumes_at _ (if ?b then _ else _) => destruct b end);
+    try apply C_err_and_pop;
+    (match goal with |- consumes_at _ (?f fuel) => unfold f end);
+    (apply C_node; [exact Hs|]; apply C_bind1; [apply C_bump|mtail]).
+Qed.
+
+Lemma C_operation_definition t fuel : sigtok t -> consumes_at t (g_operation_definition fuel).
+Proof.
+  intros Hs. unfold g_operation_definition. eapply C_keepv; [apply peek_some|].
+  destruct (tok_kind t) eqn:Hk; cbv iota beta; try apply C_err_and_pop.
+  - apply C_node; [exact Hs|]. apply C_selection_set. exact Hk.
+  - apply C_node; [exact Hs|]. apply C_bind1; [apply C_operation_type; exact Hs|mtail].
+Qed.
+
+Lemma C_fragment_definition t fuel : sigtok t -> consumes_at t (g_fragment_definition fuel).
+Proof. intros Hs. unfold g_fragment_definition. apply C_node; [exact Hs|]. apply C_bind1; [apply C_bump|mtail]. Qed.
+
+Ltac kw_case Hs Hk :=
+  match goal with
+  | Hd : p_str_eqb (tok_data _) ?kw = true |- consumes_at ?t (?f ?fuel) =>
+      unfold f; apply C_kw_first; [exact Hs|exact Hk|exact Hd|mtail]
+  end.
+Ltac desc_case Hk :=
+  match goal with
+  | |- consumes_at ?t (?f ?fuel) => unfold f; apply C_desc_first; [exact Hk|mtail]
+  end.
+
+(* entered on a description (the definition keyword is the second token's) *)
+Lemma C_select_definition_string t def fuel :
+  tok_kind t = TkStringValue -> consumes_at t (g_select_definition def fuel).
+Proof.
+  intros Hk. assert (Hs : sigtok t) by (eapply sig_of_kind; eauto). unfold g_select_definition.
+  repeat (match goal with |- consumes_at _ (if ?b then _ else _) => destruct b end);
+    try apply C_err_and_pop; try (desc_case Hk);
+    try (apply C_extensions; exact Hs); try (apply C_fragment_definition; exact Hs);
+    try (apply C_operation_definition; exact Hs).
+Qed.
+
+(* entered on the definition keyword itself: def is the data of the current token *)
+Lemma C_select_definition_data t fuel :
+  sigtok t -> tkind_eqb (tok_kind t) TkStringValue = false -> consumes_at t (g_select_definition (tok_data t) fuel).
+Proof.
+  intros Hs Hk. unfold g_select_definition.
+  repeat (match goal with |- consumes_at _ (if ?b then _ else _) => destruct b eqn:? end);
+    try apply C_err_and_pop; try (kw_case Hs Hk);
+    try (apply C_extensions; exact Hs); try (apply C_fragment_definition; exact Hs);
+    try (apply C_operation_definition; exact Hs).
+Qed.
+
+Lemma document_step_progress fuel t s s' :
+  ps_cur s = Some t -> g_document_step fuel (tok_kind t) s = POk (true, s') -> (mu s' < mu s)%nat.
+Proof.
+  intros Hc E. unfold g_document_step in E. destruct (tok_kind t) eqn:Hk; try discriminate.
+  all: try (apply bind_ok in E as (? & s1 & E1 & E); unfold p_ret in E; injection E as <-;
+            eapply C_err_and_pop; eauto; fail).
+  - (* { *)
+    apply bind_ok in E as (d & s1 & E1 & E). rewrite (peek_data_some t s Hc) in E1. injection E1 as <- <-.
+    apply bind_ok in E as (? & s2 & E2 & E). unfold p_ret in E. injection E as <-.
+    eapply C_select_definition_data; eauto; [eapply sig_of_kind; eauto|rewrite Hk; reflexivity].
+  - (* Name *)
+    apply bind_ok in E as (d & s1 & E1 & E). rewrite (peek_data_some t s Hc) in E1. injection E1 as <- <-.
+    apply bind_ok in E as (? & s2 & E2 & E). unfold p_ret in E. injection E as <-.
+    eapply C_select_definition_data; eauto; [eapply sig_of_kind; eauto|rewrite Hk; reflexivity].
+  - (* StringValue *)
+    apply bind_ok in E as (d & s1 & E1 & E). apply peek_data_n_pure in E1. subst s1.
+    apply bind_ok in E as (? & s2 & E2 & E). unfold p_ret in E. injection E as <-.
+    destruct d as [def|]; [eapply C_select_definition_string; eauto|eapply C_err_and_pop; eauto].
+Qed.
+
+Lemma T_document n fuel : (n <= fuel)%nat -> spec (CM n) (g_document fuel).
+Proof.
+  intros Hn. rewrite g_document_unfold. apply d_node; [apply CM_atoms|].
+  eapply post_bind; [apply CM_rel|tsolve|intros o].
+  eapply post_bind; [apply CM_rel|tsolve|intros].
+  eapply post_bind; [apply CM_rel| |intros; tsolve].
+  apply T_peek_while; [|exact Hn|intros; tsolve].
+  intros t s s' Hc E. apply bind_ok in E as (? & s1 & E1 & E).
+  assert (s1 = s) as ->.
+  { unfold g_assert_recursion_balanced in E1. destruct (_ =? _); [injection E1 as _ <-; reflexivity|discriminate]. }
+  eapply document_step_progress; eauto.
+Qed.
+
+Lemma T_type_entry n fuel : (n <= fuel)%nat -> spec (CM n) (g_type_entry fuel).
+Proof. intros Hn. unfold g_type_entry. tfull. Qed.
+
+(* ---- the entries: fuel_for items = length items + 2 is never exhausted (whatever debug_assertions) *)
+Lemma init_mu dbg rl items : mu (p_init_state dbg rl items) = length items.
+Proof. unfold mu. cbn. lia. Qed.
+
+Theorem run_terminates (g : nat -> PM unit) :
+  (forall n fuel, (n <= fuel)%nat -> spec (CM n) (g fuel)) ->
+  forall fuel dbg rl items, (length items < fuel)%nat -> p_run_with fuel g dbg rl items <> POutOfFuel.
+Proof.
+  intros Hg fuel dbg rl items Hf. unfold p_run_with, p_finish.
+  assert (Hs : (mu (p_init_state dbg rl items) < fuel)%nat) by (rewrite init_mu; exact Hf).
+  pose proof (Hg fuel fuel (le_n _) _ Hs) as H.
+  destruct (g fuel (p_init_state dbg rl items)) as [[u s]| |]; [|discriminate|contradiction].
+  unfold pb_finish. destruct (pb_children _) as [|[k c|k x] [|y l]]; discriminate.
+Qed.
+
+Theorem document_terminates dbg rl items : parse_document_items dbg rl items <> POutOfFuel.
+Proof. apply (run_terminates g_document T_document). unfold p_fuel_for. lia. Qed.
+Theorem selection_set_terminates dbg rl items : parse_selection_set_items dbg rl items <> POutOfFuel.
+Proof. apply (run_terminates g_field_set T_field_set). unfold p_fuel_for. lia. Qed.
+Theorem type_terminates dbg rl items : parse_type_items dbg rl items <> POutOfFuel.
+Proof. apply (run_terminates g_type_entry T_type_entry). unfold p_fuel_for. lia. Qed.
